@@ -66,6 +66,8 @@ def load_callgraph(M):
         except Exception:
             pass
     cg = CallGraph(M)
+    if os.environ.get("NIXSA_EVIDENCE_DIR"):
+        return cg               # scratch run (self-validation): leave no cache behind
     try:
         os.makedirs(d, exist_ok=True)
         tmp = p + ".%d.tmp" % os.getpid()
